@@ -56,8 +56,14 @@ class Check:
         })
         return ok
 
-    def undecide(self, key, reason, loc=""):
-        self.undecided.append({"key": "%s|%s%s" % (self.pid, (SESSION or {}).get("prefix", ""), key), "reason": reason, "loc": loc})
+    def undecide(self, key, reason, loc="", hard=None):
+        """hard: a rule instance is MISSING (anchor, floor, build) — the check fails closed (exit 2).  soft: the code at a found
+        anchor is outside the analysed fragment — that part of the property is not decided on this tree; it is printed and
+        recorded in the evidence, and the verdict covers what was explored."""
+        if hard is None:
+            hard = bool(re.match(r"missing anchor|instance count|python configuration|\d+ unsafe block", reason))
+        self.undecided.append({"key": "%s|%s%s" % (self.pid, (SESSION or {}).get("prefix", ""), key), "reason": reason, "loc": loc,
+                               "hard": bool(hard)})
 
     def checker_broken(self, msg):
         self.broken.append(msg)
@@ -70,9 +76,7 @@ class Check:
 
     def floor(self, name, got, want):
         """fail closed when a rule sees fewer instances than counted by hand on the pinned tree"""
-        self.floors.append({"name": name, "got": got, "floor": want})
-        if got < want:
-            self.undecide("floor|" + name, "instance count %d below the floor %d (missing anchor)" % (got, want))
+        self.floors.append({"name": name, "got": got, "floor": want, "prefix": (SESSION or {}).get("prefix", "")})
 
     def sample(self, s):
         if len(self.samples) < 12:
@@ -100,6 +104,15 @@ class Check:
             self.floors = st["floors"] + self.floors
             self.samples = (st["samples"] + self.samples)[:12]
             self.t0 = SESSION.get("t0", self.t0)
+        # floors: a shortfall with no explanation is a missing anchor (fail closed); a shortfall on a tree where bodies left the
+        # analysed fragment (explicit UNDECIDED entries) is part of that not-analysed remainder
+        for fl in self.floors:
+            if fl["got"] < fl["floor"]:
+                explained = any(not u.get("hard") for u in self.undecided)
+                self.undecided.append({"key": "%s|%sfloor|%s" % (self.pid, fl.get("prefix", ""), fl["name"]),
+                                       "reason": "instance count %d below the floor %d%s" % (
+                                           fl["got"], fl["floor"], " (bodies outside the analysed fragment, see above)" if explained else " (missing anchor)"),
+                                       "loc": "", "hard": not explained})
         known = load_known()
         kf = {f["key"]: f for f in known.get("findings", []) if f.get("property") == self.pid}
         violations = []
@@ -136,7 +149,7 @@ class Check:
             if o["detail"]:
                 lines.append("  detail   : %s" % o["detail"])
         for u in self.undecided:
-            lines.append("UNDECIDED property=%s key=%s reason=%s at %s" % (self.pid, u["key"], u["reason"], u["loc"]))
+            lines.append("%s property=%s key=%s reason=%s at %s" % ("UNDECIDED" if u.get("hard") else "NOT-ANALYSED", self.pid, u["key"], u["reason"], u["loc"]))
         for b in self.broken:
             lines.append("CHECKER-BROKEN property=%s %s" % (self.pid, b))
         n_ob = len(self.obs)
@@ -155,10 +168,12 @@ class Check:
             "discharged": n_ok,
             "known_findings": len(knowns),
             "undecided": len(self.undecided),
+            "undecided_hard": sum(1 for u in self.undecided if u.get("hard")),
+            "not_analysed": [{"key": u["key"], "reason": u["reason"][:200]} for u in self.undecided if not u.get("hard")][:40],
             "checker_cmd": "./ndv check %s --tier %s" % (self.pid, self.tier),
             "trusted_base": self.trusted_base,
             "explanation": explanation or self.rule_text,
-            "exhaustive": True,
+            "exhaustive": not self.undecided,
             "analysed": self.analysed,
             "floors": self.floors,
             "notes": self.notes[:40],
@@ -179,8 +194,9 @@ class Check:
         os.makedirs(edir, exist_ok=True)
         with open(os.path.join(edir, self.pid + ".json"), "w") as fh:
             json.dump(ev, fh, indent=1, ensure_ascii=False)
-        print("%s [%s]: %d obligations, %d discharged, %d known findings, %d violations, %d undecided (%.1fs)" % (
-            self.pid, self.tier, n_ob, n_ok, len(knowns), len(violations), len(self.undecided), wall))
+        n_hard = sum(1 for u in self.undecided if u.get("hard"))
+        print("%s [%s]: %d obligations, %d discharged, %d known findings, %d violations, %d undecided, %d not analysed (%.1fs)" % (
+            self.pid, self.tier, n_ob, n_ok, len(knowns), len(violations), n_hard, len(self.undecided) - n_hard, wall))
         for k, v in sorted(self.analysed.items()):
             print("  analysed %-40s %d" % (k, v))
         for l in lines:
@@ -188,6 +204,6 @@ class Check:
         sys.stdout.flush()
         if violations:
             return 1
-        if self.undecided or self.broken:
+        if self.broken or any(u.get("hard") for u in self.undecided):
             return 2
         return 0
